@@ -135,6 +135,8 @@ def scaling_probe(ctx, classes, n_schema, gen):
     # at least two flexible classes without tagged fields of their own first (they take the unknown-tags shape)
     pref = [i for i in order if getattr(classes[i], "__flexible__", False) and any(d.array for d in describe(classes[i]))
             and not any(d.tag is not None for d in describe(classes[i]))][:2]
+    # ... and two NON-flexible classes with arrays (the legacy array reader is a different function)
+    pref += [i for i in order if not getattr(classes[i], "__flexible__", False) and any(d.array for d in describe(classes[i]))][:2]
     order = pref + [i for i in order if i not in set(pref)]
     for idx in order:
         if len(out) >= 3 * want:
